@@ -16,23 +16,36 @@
 //!      (0, 1, 8, 32, tx start, script data, $is, $ssp, $sp, $hp, $hp+32, MEM-32, MEM-1,
 //!      MEM, 2^32, 2^40, 2^63, u64::MAX) rotated by the preset number, so that every
 //!      (field, class) and every (field, class) x (other field, class) pair occurs.
-//!      Reserved registers are never forged: every prepared state is reached by real code.
-//!  (b) all programs of <= k letters (k = 2 quick, 3 thorough) over the alphabet `letters()`
-//!      (one benign and one or more hostile operand choices per opcode), run as real
+//!      Two more "presets" keep the registers exactly as the program preludes leave them
+//!      (letters are benign there), one of them after `cfsi 64` ($sp == $ssp, needed by LDC).
+//!      Quick uses every third class preset. Reserved registers are never forged: every
+//!      prepared state is reached by real code.
+//!  (b) all programs of <= 2 letters (quick) / <= 3 letters (thorough, length 3 run last under
+//!      the time budget) over the alphabet `letters()` (~190 letters: one benign and one or
+//!      more hostile operand choices per opcode, loops, undecodable words), run as real
 //!      scripts: step-wise (`init_script` + `execute`) with an instruction counter, then
-//!      end-to-end through `Interpreter::transact`.
-//!  (c) the same programs (k <= 2) and a reduced raw-word set (256 opcodes x 5 argument
-//!      patterns) as the code of contract A (called by a fixed script) and as predicate
-//!      code (step-wise in predicate mode, then `predicates::check_predicates` and
-//!      `estimate_predicates`).
-//!  (d) script-data lengths 0..=9, 63, 64, 65, 1000, 4096 x all single-letter programs +
-//!      data-reading programs; scripts with 1..3 trailing bytes; 1-3 byte scripts; empty script.
-//!  (e) storage faults: `FaultyStorage` (c29_fault.rs) fails the k-th storage access; for
-//!      every program over the storage alphabets (script context and contract context,
-//!      <= 2 letters quick / <= 3 thorough for the contract alphabet) and for EVERY k in
-//!      1..=N (N = accesses of the fault-free run); plus blob-reading predicates.
-//!  (f) receipt-limit probe: LOG loop to N in 65530..=65534 receipts followed by each of 14
-//!      tails (DESIGN §7 candidate `ReceiptsCtxFull`).
+//!      end-to-end through `Interpreter::transact`. Program = world prelude (pointer
+//!      registers 0x20..0x28) + extra prelude `xpre` (owned heap/stack, MEM-1, MEM, u64::MAX,
+//!      2^40 ...) + letters + `ret $one`.
+//!  (c) the same programs (<= 2 letters) and a reduced raw-word set (256 opcode bytes x 5
+//!      argument patterns) as the code of contract A (deployed raw into a copy of the world
+//!      storage, called by a fixed script) and as predicate code of a coin-predicate input
+//!      (step-wise in predicate mode, then `predicates::check_predicates` and
+//!      `estimate_predicates`); the raw words also as scripts.
+//!  (d) script-data lengths 0..=9, 63, 64, 65, 1000, 4096 x (all single-letter programs + 3
+//!      data-reading programs); every single-letter program followed by 1..3 trailing bytes
+//!      (script length not a multiple of 4); 1-3 byte scripts; the empty script.
+//!  (e) storage faults: `FaultyStorage` (c29_fault.rs) delegates to MemoryStorage and fails
+//!      the k-th access (any table method, any InterpreterStorage method). For every program
+//!      and EVERY k in 1..=N (N = number of accesses of the fault-free run of that program):
+//!      script context: all <= 2-letter programs over the 34 storage letters; contract
+//!      context: quick = all single letters of the 66-letter contract storage alphabet + all
+//!      pairs of the 32 contract-only letters, thorough = all programs <= 3 letters; predicate
+//!      context: <= 2 letters over the blob letters with the fault in the predicate's blob storage.
+//!  (f) receipt-limit probe (DESIGN §7 candidate `ReceiptsCtxFull`): a LOG loop producing N
+//!      receipts (N in {65532, 65533} quick, 65530..=65534 thorough) followed by each of 16
+//!      tails, as script and inside contract A; plus, in (a), every letter injected into real
+//!      VMs holding 65531.. receipts.
 //!
 //! ORACLE (from the statement only):
 //!  * no host panic (catch_unwind) anywhere                  -> `C29:host-panic:<opcode|entry>:<location>`
@@ -42,8 +55,12 @@
 //!  * default gas schedule: every instruction that executes (returns Ok) strictly
 //!    decreases `$ggas`                                       -> `C29:free-instruction:<OPCODE>`
 //!  * a run with gas limit G executes at most G+1 instructions -> `C29:no-termination`
-//! Level: Exploration — (a)-(d) are >99% of the cases; the fault enumeration (e) is one
-//! sub-space reported separately in the evidence.
+//! Level: Exploration — the instruction/program spaces (a)-(d),(f) are the bulk of the cases
+//! (quick: 6.6 M of 6.6 M; thorough: ~22 M of 26 M) and carry four of the five oracle
+//! clauses; the fault enumeration (e) is one sub-space, reported separately in the evidence
+//! (`e_space`, outcome labels `e:*`).
+//! Limit: an instruction that would loop *inside* the host without consuming gas cannot be
+//! interrupted; it shows up as a hung / OOM-killed run (exit != 0), not as a verdict.
 
 #[path = "../c29_fault.rs"]
 mod c29_fault;
